@@ -383,6 +383,18 @@ func registerIntrinsics(p *Program) {
 		if m.Branch(c.Eq(n.JK, c.Int(0)), "json.Number.Float64 integral text") {
 			return Tuple{m.intToFloat(SymInt{n.JN}, false), Iface{}}
 		}
+		// a fraction spelling of an integer ("5.00", "9007199254740993.0"): strconv rounds
+		// correctly, so the result is the integer converted with round-to-nearest-even
+		for k := 1; k <= 3; k++ {
+			if !m.Branch(c.Eq(n.JK, c.Int(int64(k))), "json.Number.Float64 decimals") {
+				continue
+			}
+			p10 := c.BigInt(big.NewInt(0).Exp(big.NewInt(10), big.NewInt(int64(k)), nil))
+			if m.Branch(c.Eq(c.Mod(n.JN, p10), c.Int(0)), "json.Number.Float64 integral fraction spelling") {
+				return Tuple{m.intToFloat(SymInt{c.IDiv(n.JN, p10)}, false), Iface{}}
+			}
+			break
+		}
 		unsupported("json.Number.Float64 of a decimal fraction (decimal-to-binary rounding is not modelled)")
 		return nil
 	})
